@@ -46,11 +46,13 @@ and `Ref.eval`/`Ref.runProgram` themselves:
                                   and evaluated in nested `Run`s;
 * `compile_correct_on_Fc`       — `CompileCorrect` restricted to Fc.
 
-* `segment_lemma_Ff`            — F2a: expressions with calls of USER functions by name (closure
-                                  objects), under a relation that lets function ids differ between
-                                  the two evaluators and the linear stack hold the caller's scopes;
-* `compile_correct_on_F2a`      — `CompileCorrect` restricted to F2a: top-level `defn`s (fixed
-                                  arity), calls by name, recursion, functions as values.
+* `segment_lemma_Ff`            — F2: expressions with `fn`/`defn` and calls of USER functions by name
+                                  (closure objects), under a relation that lets function ids differ
+                                  between the two evaluators and the linear stack hold the caller's
+                                  scopes;
+* `compile_correct_on_F2`       — `CompileCorrect` restricted to F2: `defn`/`fn` of fixed arity at any
+                                  depth, closures capturing locals, calls by name, recursion,
+                                  functions as values.
 
 `compile_correct_partial` (below) says what is proved of the semantic statement and names
 the unproved remainder (`CompileCorrectOutsideProved`).
@@ -733,24 +735,24 @@ example : ∃ fuel' o, obsOfRef (Ref.runProgram 8 demoFcSmall Ref.initSt).1 = so
   | cont l rs' => rw [hres] at h; simp [refClass] at h
 
 
-/-! ## F2a — user functions: top-level `defn`, calls by name, recursion
+/-! ## F2 — user functions: `defn`, `fn`, closures, calls by name, recursion
 
-A program text of F2a is a list of top-level forms, each either
-
-* `(defn name [p₁ … pₙ] body…)` — fixed arity, distinct parameters that are not lazy (`#p`) and not
-  builtin names, a non-empty body of expressions in `Ff name` —, or
-* an expression of `Ff ""`,
-
-where `Ff self` = literals, symbols, `def`, `set`, `begin`, `cond`, and calls `(h a₁ … aₙ)` whose head is
-a symbol other than `self` (a call of the function being defined in a directly compiled position
-may be compiled as a self tail call, `goto 0`: that is F2c) and whose operands are in `Ff ""`
+A program text of F2 is a list of top-level forms of `Ff true ""`, where `Ff fnOk self` is: literals,
+symbols, `def`, `set`, `begin`, `cond`, calls `(h a₁ … aₙ)`, and — in positions compiled when the
+text is loaded (`fnOk`: everywhere but inside the operands of a call) — `(fn [p₁ … pₙ] body…)` and
+`(defn name [p₁ … pₙ] body…)`, at top level or nested in function bodies to any depth: fixed arity,
+distinct parameters that are not lazy (`#p`) and not builtin names, a non-empty body in the fragment.
+The head of a call is a symbol other than `self` (the function being defined: a call of it in a
+directly compiled position may be compiled as a self tail call, `goto 0` — that is F2c) and not of
+the form `__anon…` (the generator's names for anonymous functions); the operands are in `Ff false ""`
 (operands are compiled at run time, outside any function). No name `map`, `apply`, `force`,
-`substitute` is mentioned. The head of a call is looked up at run time: it may denote a closure
-object (user function — any arity mismatch is the script error of both sides), a first-order
-builtin, an array (operands evaluated, then an error) or any other value (itself without operands,
-an error with operands). Functions are VALUES here: `(def g f)`, `(g 1)`, a function passed to a
-function or put in a list are all in the fragment. Recursion (not in tail position of its own body)
-is in: `(defn fact [n] (cond (== n 0) 1 (* n (fact (- n 1)))))`.
+`substitute` is mentioned. The head of a call is looked up at run time: it may denote a closure object
+(any arity mismatch is the script error of both sides), a first-order builtin, an array (operands
+evaluated, then an error) or any other value (itself without operands, an error with operands).
+Functions are VALUES: bound by `def`, passed as operands, returned, kept in lists. Closures capture
+the scopes of the functions they were made in and may assign to captured variables:
+`(defn mk [] (def c 0) (fn [] (set c (+ c 1))))`. Recursion (not in tail position of its own body):
+`(defn fact [n] (cond (== n 0) 1 (* n (fact (- n 1)))))`.
 
 What the proof has to deal with, beyond Fc:
 
@@ -763,21 +765,27 @@ What the proof has to deal with, beyond Fc:
   rule of `BindSymbol` ignores them.
 * **Inside a callee the linear scope stack is not the static chain**: it is the callee's scopes down
   to its function scope, on top of the CALLER's stack. `LexicalLookupSymbol` stops stage 1 at the
-  function scope and goes on in the closing stack of the running closure object (stage 2), then in
-  the template's (stage 3). `Sim.ChainF`/`Sim.FnChainF` say how these lists follow the static chain
-  of the reference environment, `Sim.RelF.lexLookup` that the three stages find what the
-  reference lookup finds. (Closures of F2a close over the global scope only; F2b generalises this.)
+  function scope and goes on (stage 2) in the closing stack of the running closure object — the
+  scopes that were live, down to the next function scope, when the closure was made —, then in that
+  of the function that made it, and so on; then (stage 3) in the template's. `Sim.ChainF`/`Sim.FnChainF`
+  say how these lists, segment by segment, are the static chain of the reference environment
+  (`Sim.GoodFn` keeps the chain of every closure object), `Sim.RelF.lexLookup` that the three stages
+  find what the reference lookup finds.
 * **A call runs in the caller's `Run` loop**: `callExpr` evaluates the operands in nested runs,
   `CallFunction` pushes the return address; prologue (`addFuncScope`, parameters bound from the
   stack last-first), body, epilogue (`removeScope`, `ret`) are instructions of the callee executed by
   the same loop (`Sim.fclaimU_succ`), against `applyFn` (fresh frame under the closure's
-  environment, parameters bound first-last, body). -/
+  environment, parameters bound first-last, body).
+* **Templates are compiled when the text is loaded**, closures are made from them at run time
+  (`Sim.GenOk`: the templates the generator made — nested ones included — are in the function table
+  of the running state; `Sim.closure_step`: `createClosure` against `fn`/`defn`). -/
 
-/-- **Segment lemma for F2a expressions**, spelled out (see `Sim.segment_Ff`, `Sim.SimF`). -/
-theorem segment_lemma_Ff (self : String) (e : Expr) (he : Ff self e = true) (isFn : Nat → Bool) (c : Ctx)
-    (hfn : c.funcname = self ∨ c.funcname = "") (gs gs' : GS) (code : List Instr) (t : Bool)
+/-- **Segment lemma for F2 expressions**, spelled out (see `Sim.segment_Ff`, `Sim.SimF`). -/
+theorem segment_lemma_Ff (fnOk : Bool) (self : String) (e : Expr) (he : Ff fnOk self e = true) (isFn : Nat → Bool) (c : Ctx)
+    (hfn : FnameOk self c) (gs gs' : GS) (code : List Instr) (t : Bool)
     (hc : (compile isFn c e).run gs = .ok ((code, t), gs')) (m : Nat → Nat) (s : St) (rs : Ref.St) (env : Nat)
-    (pre post : List Instr) (hrel : RelF m s rs env) (huser : (fnOf s s.curfunc).user = false)
+    (pre post : List Instr) (hrel : RelF m s rs env) (hgen : fnOk = true → GenOk gs gs' s)
+    (huser : (fnOf s s.curfunc).user = false)
     (hcode : (fnOf s s.curfunc).code = pre ++ code ++ post) (hpc : s.pc = (pre.length : Int)) (n : Nat) :
     match Ref.eval n e env rs with
     | .ok v' rs' => ∃ s' m' v, v' = Sim.tr m' id id v ∧ RelF m' s' rs' env ∧ (∀ i, i < s.fns.length → m' i = m i)
@@ -789,7 +797,7 @@ theorem segment_lemma_Ff (self : String) (e : Expr) (he : Ff self e = true) (isF
     | .timeout => True
     | .brk _ _ => False
     | .cont _ _ => False := by
-  have h := segment_Ff self e he isFn c hfn gs ((code, t), gs') hc m s rs env pre post hrel ⟨huser, hcode, hpc⟩ n
+  have h := segment_Ff fnOk self e he isFn c hfn gs ((code, t), gs') hc m s rs env pre post hrel hgen ⟨huser, hcode, hpc⟩ n
   cases hres : Ref.eval n e env rs with
   | ok v rs' =>
     rw [hres] at h
@@ -806,15 +814,15 @@ theorem segment_lemma_Ff (self : String) (e : Expr) (he : Ff self e = true) (isF
 /-- the relation holds between the initial states, whatever the id map -/
 theorem relF_init (m : Nat → Nat) : RelF m VM.initSt Ref.initSt 0 := relF_initSt m
 
-/-- **`CompileCorrect` for the fragment F2a**: whenever the reference evaluator reports an outcome
-for a program whose top-level forms are `defn`s and expressions of F2a, the VM model reports the
-same outcome — same class, same printed value, same trace. -/
-theorem compile_correct_on_F2a : CompileCorrectOn (fun p => FtList p = true) := by
+/-- **`CompileCorrect` for the fragment F2**: whenever the reference evaluator reports an outcome
+for a program whose top-level forms are in F2 (`defn`s, `fn`s, expressions with calls of user
+functions), the VM model reports the same outcome — same class, same printed value, same trace. -/
+theorem compile_correct_on_F2 : CompileCorrectOn (fun p => FtList p = true) := by
   intro p hp hwf fuel o ho
   cases p with
   | nil => exact compile_correct_on_F0c [] rfl hwf fuel o ho
   | cons e es =>
-    obtain ⟨N, hN⟩ := runText_Ft id VM.initSt Ref.initSt (e :: es) (by simp) hp atRest_initSt topCtx_initSt
+    obtain ⟨N, hN⟩ := runText_Ft id VM.initSt Ref.initSt (e :: es) (by simp) hp atRest_initSt rfl
       (relF_initSt id) fuel
     refine ⟨N, ?_⟩
     have h := hN N (Nat.le_refl _)
@@ -836,12 +844,15 @@ theorem compile_correct_on_F2a : CompileCorrectOn (fun p => FtList p = true) := 
 
 set_option linter.unusedSimpArgs false
 
+/-- membership in the fragment, by computation -/
+macro "ft_mem" d:ident : tactic =>
+  `(tactic| simp [$d:ident, FtList, FfList, Ff, FaList, FfArms, okParam, okName, okBinder, okSym, okHead, foBuiltins, hoNames])
+
 /-- `(defn sq [x] (* x x)) (trace (sq 3))` -/
 def demoF2 : List Expr :=
   [.defn "sq" ["x"] none [.call (.sym "*") [.sym "x", .sym "x"]], .call (.sym "trace") [.call (.sym "sq") [.int 3]]]
 
-theorem demoF2_in : FtList demoF2 = true := by
-  simp [demoF2, FtList, FtForm, FfList, Ff, FaList, FfArms, okParam, okName, okBinder, okSym, foBuiltins, hoNames]
+theorem demoF2_in : FtList demoF2 = true := by ft_mem demoF2
 
 /-- `(defn fact [n] (cond (== n 0) 1 (* n (fact (- n 1))))) (fact 2)`: recursion -/
 def demoF2Rec : List Expr :=
@@ -849,32 +860,46 @@ def demoF2Rec : List Expr :=
       (.call (.sym "*") [.sym "n", .call (.sym "fact") [.call (.sym "-") [.sym "n", .int 1]]])],
    .call (.sym "fact") [.int 2]]
 
-theorem demoF2Rec_in : FtList demoF2Rec = true := by
-  simp [demoF2Rec, FtList, FtForm, FfList, Ff, FaList, FfArms, okParam, okName, okBinder, okSym, foBuiltins, hoNames]
+theorem demoF2Rec_in : FtList demoF2Rec = true := by ft_mem demoF2Rec
+
+/-- `(defn adder [n] (fn [x] (+ x n))) (def a (adder 3)) (trace (a 4))`: a closure capturing a parameter,
+returned and called later -/
+def demoF2Clo : List Expr :=
+  [.defn "adder" ["n"] none [.fn ["x"] none [.call (.sym "+") [.sym "x", .sym "n"]]],
+   .def_ "a" (.call (.sym "adder") [.int 3]), .call (.sym "trace") [.call (.sym "a") [.int 4]]]
+
+theorem demoF2Clo_in : FtList demoF2Clo = true := by ft_mem demoF2Clo
 
 /-- `(defn f [x] (def g x) (+ g 1)) (def g 10) (trace (f 5)) g`: a `def` inside a function binds in
-the function's scope; `(defn f [] 7) (def k f) (k)`: a function as a value; `(defn f [x y] x) (f 1)`: wrong arity -/
+the function's scope; `(defn f [] 7) (def k f) (k)`: a function as a value; `(defn f [x y] x) (f 1)`: wrong
+arity; `(defn mk [] (def c 0) (fn [] (set c (+ c 1)))) (def k (mk)) (k) (k) (trace (k))`: a closure
+assigning to a captured local; `(defn outer [a] (defn inner [b] (cons a b)) inner) (def f (outer 1))
+(def g (outer 2)) (trace (f 10)) (g 20)`: a nested `defn`, two closures of one template -/
 def demoF2Scope : List Expr :=
   [.defn "f" ["x"] none [.def_ "g" (.sym "x"), .call (.sym "+") [.sym "g", .int 1]], .def_ "g" (.int 10),
    .call (.sym "trace") [.call (.sym "f") [.int 5]], .sym "g"]
 def demoF2Val : List Expr := [.defn "f" [] none [.int 7], .def_ "k" (.sym "f"), .call (.sym "k") []]
 def demoF2Arity : List Expr := [.defn "f" ["x", "y"] none [.sym "x"], .call (.sym "f") [.int 1]]
+def demoF2Counter : List Expr :=
+  [.defn "mk" [] none [.def_ "c" (.int 0), .fn [] none [.set_ "c" (.call (.sym "+") [.sym "c", .int 1])]],
+   .def_ "k" (.call (.sym "mk") []), .call (.sym "k") [], .call (.sym "k") [], .call (.sym "trace") [.call (.sym "k") []]]
+def demoF2Nested : List Expr :=
+  [.defn "outer" ["a"] none [.defn "inner" ["b"] none [.call (.sym "cons") [.sym "a", .sym "b"]], .sym "inner"],
+   .def_ "f" (.call (.sym "outer") [.int 1]), .def_ "g" (.call (.sym "outer") [.int 2]),
+   .call (.sym "trace") [.call (.sym "f") [.int 10]], .call (.sym "g") [.int 20]]
 
-example : FtList demoF2Scope = true := by
-  simp [demoF2Scope, FtList, FtForm, FfList, Ff, FaList, FfArms, okParam, okName, okBinder, okSym, foBuiltins, hoNames]
-example : FtList demoF2Val = true := by
-  simp [demoF2Val, FtList, FtForm, FfList, Ff, FaList, FfArms, okParam, okName, okBinder, okSym, foBuiltins, hoNames]
-example : FtList demoF2Arity = true := by
-  simp [demoF2Arity, FtList, FtForm, FfList, Ff, FaList, FfArms, okParam, okName, okBinder, okSym, foBuiltins, hoNames]
+example : FtList demoF2Scope = true := by ft_mem demoF2Scope
+example : FtList demoF2Val = true := by ft_mem demoF2Val
+example : FtList demoF2Arity = true := by ft_mem demoF2Arity
+example : FtList demoF2Counter = true := by ft_mem demoF2Counter
+example : FtList demoF2Nested = true := by ft_mem demoF2Nested
 
-set_option linter.unusedSimpArgs false in
 theorem demoF2_ref :
     refClass (Ref.evalBegin 12 demoF2 0 { Ref.initSt with trace := [] }) = some (some (.int 9#64)) := by
   simp [demoF2, Ref.evalBegin, Ref.eval, Ref.evalArgs, Ref.applyFn, Ref.bindParams, Ref.newFrame,
     Ref.define, Ref.setVar, Ref.lookup, Ref.lookupIn, Ref.initSt, Ref.assocSet, Ref.globalNames, coreBuiltins,
     refClass, List.lookup, prim, isFunction, allInts, intOfLit, Ref.isLazyParam, rebindOk, tyOf]
 
-set_option linter.unusedSimpArgs false in
 set_option maxRecDepth 4000 in
 theorem demoF2Rec_ref :
     refClass (Ref.evalBegin 30 demoF2Rec 0 { Ref.initSt with trace := [] }) = some (some (.int 2#64)) := by
@@ -884,9 +909,16 @@ theorem demoF2Rec_ref :
     refClass, List.lookup, prim, isFunction, allInts, intOfLit, Ref.isLazyParam, rebindOk, tyOf, isCmp, compareVals,
     cmpResult, trb]
 
-/-- instances of `compile_correct_on_F2a` with a real outcome on the reference side (value 9 with
-one traced call; value 2 by a recursive function); the same texts through the harness print
-`ok 9 T[9]` and `ok 2 T[]` -/
+set_option maxRecDepth 4000 in
+theorem demoF2Clo_ref :
+    refClass (Ref.evalBegin 16 demoF2Clo 0 { Ref.initSt with trace := [] }) = some (some (.int 7#64)) := by
+  simp [demoF2Clo, Ref.evalBegin, Ref.eval, Ref.evalArgs, Ref.applyFn, Ref.bindParams, Ref.newFrame,
+    Ref.define, Ref.setVar, Ref.lookup, Ref.lookupIn, Ref.initSt, Ref.assocSet, Ref.globalNames, coreBuiltins,
+    refClass, List.lookup, prim, isFunction, allInts, intOfLit, Ref.isLazyParam, rebindOk, tyOf]
+
+/-- instances of `compile_correct_on_F2` with a real outcome on the reference side (value 9 with one
+traced call; value 2 by a recursive function; value 7 through a closure that captured a parameter);
+the same texts through the harness print `ok 9 T[9]`, `ok 2 T[]`, `ok 7 T[7]` -/
 example : ∃ fuel' o, obsOfRef (Ref.runProgram 12 demoF2 Ref.initSt).1 = some o
     ∧ obsOfVM (VM.runText fuel' demoF2 VM.initSt).1 = some o := by
   have h := demoF2_ref
@@ -894,7 +926,7 @@ example : ∃ fuel' o, obsOfRef (Ref.runProgram 12 demoF2 Ref.initSt).1 = some o
   | ok v rs' =>
     have ho : obsOfRef (Ref.runProgram 12 demoF2 Ref.initSt).1 = some (.ok (pr rs'.heap v) rs'.trace) := by
       unfold Ref.runProgram; simp only [hres]; rfl
-    obtain ⟨f, hf⟩ := compile_correct_on_F2a demoF2 demoF2_in (by decide) 12 _ ho
+    obtain ⟨f, hf⟩ := compile_correct_on_F2 demoF2 demoF2_in (by decide) 12 _ ho
     exact ⟨f, _, ho, hf⟩
   | err rs' => rw [hres] at h; simp [refClass] at h
   | timeout => rw [hres] at h; simp [refClass] at h
@@ -908,7 +940,21 @@ example : ∃ fuel' o, obsOfRef (Ref.runProgram 30 demoF2Rec Ref.initSt).1 = som
   | ok v rs' =>
     have ho : obsOfRef (Ref.runProgram 30 demoF2Rec Ref.initSt).1 = some (.ok (pr rs'.heap v) rs'.trace) := by
       unfold Ref.runProgram; simp only [hres]; rfl
-    obtain ⟨f, hf⟩ := compile_correct_on_F2a demoF2Rec demoF2Rec_in (by decide) 30 _ ho
+    obtain ⟨f, hf⟩ := compile_correct_on_F2 demoF2Rec demoF2Rec_in (by decide) 30 _ ho
+    exact ⟨f, _, ho, hf⟩
+  | err rs' => rw [hres] at h; simp [refClass] at h
+  | timeout => rw [hres] at h; simp [refClass] at h
+  | brk l rs' => rw [hres] at h; simp [refClass] at h
+  | cont l rs' => rw [hres] at h; simp [refClass] at h
+
+example : ∃ fuel' o, obsOfRef (Ref.runProgram 16 demoF2Clo Ref.initSt).1 = some o
+    ∧ obsOfVM (VM.runText fuel' demoF2Clo VM.initSt).1 = some o := by
+  have h := demoF2Clo_ref
+  cases hres : Ref.evalBegin 16 demoF2Clo 0 { Ref.initSt with trace := [] } with
+  | ok v rs' =>
+    have ho : obsOfRef (Ref.runProgram 16 demoF2Clo Ref.initSt).1 = some (.ok (pr rs'.heap v) rs'.trace) := by
+      unfold Ref.runProgram; simp only [hres]; rfl
+    obtain ⟨f, hf⟩ := compile_correct_on_F2 demoF2Clo demoF2Clo_in (by decide) 16 _ ho
     exact ⟨f, _, ho, hf⟩
   | err rs' => rw [hres] at h; simp [refClass] at h
   | timeout => rw [hres] at h; simp [refClass] at h
@@ -918,17 +964,17 @@ example : ∃ fuel' o, obsOfRef (Ref.runProgram 30 demoF2Rec Ref.initSt).1 = som
 /-! ## What is proved of `CompileCorrect`, and what is missing -/
 
 /-- the programs covered by a theorem: every top-level form in Fv, or every top-level form in Fc,
-or every top-level form in F2a -/
+or every top-level form in F2 -/
 def InProvedFragment (p : List Expr) : Prop := FvList p = true ∨ FcList p = true ∨ FtList p = true
 
-/-- **The part of `CompileCorrect` that is NOT proved**: programs that are in none of Fv, Fc, F2a —
-i.e. using user functions together with `let`/`and`/`or`/`for`/array literals (F2a has calls of
-user functions but not yet those forms; Fc has those forms but only builtin calls), `fn`, a `defn`
-that is not a top-level form, has a rest parameter, lazy parameters or a self call in a directly
-compiled position, nested closures capturing locals, `map`/`apply`/`force`/`substitute`, computed
-call heads, `break`/`continue` (and so loops that use them), an empty `newScope`, or (together with
-calls or array literals) a binder that re-uses a builtin name. Held by the 3-way `eval`
-correspondence on every run, not by a theorem. -/
+/-- **The part of `CompileCorrect` that is NOT proved**: programs that are in none of Fv, Fc, F2 —
+i.e. using user functions together with `let`/`and`/`or`/`for`/array literals (F2 has user
+functions but not yet those forms; Fc has those forms but only builtin calls), a `fn`/`defn` inside
+an operand of a call (compiled at run time), with a rest parameter, lazy parameters or a self call
+in a directly compiled position, `map`/`apply`/`force`/`substitute`, computed call heads,
+`break`/`continue` (and so loops that use them), an empty `newScope`, or (together with calls or
+array literals) a binder that re-uses a builtin name. Held by the 3-way `eval` correspondence on
+every run, not by a theorem. -/
 def CompileCorrectOutsideProved : Prop := CompileCorrectOn (fun p => ¬ InProvedFragment p)
 
 /-- `compile_correct_partial`: what is proved of the semantic statement.
@@ -941,9 +987,10 @@ def CompileCorrectOutsideProved : Prop := CompileCorrectOn (fun p => ¬ InProved
    * Fc — the same with binder names that are not builtin names, plus calls of first-order
      builtins (arithmetic, comparisons, `not`, lists, arrays, strings, `trace`), operands evaluated
      in nested runs, array literals, and `for` loops without `break`/`continue` — `compile_correct_on_Fc`;
-   * F2a — top-level `defn`s of fixed arity, calls of user functions by name (also through
+   * F2 — `defn`/`fn` of fixed arity at top level and nested, closures capturing (and assigning to)
+     locals of the functions they were made in, calls of user functions by name (also through
      variables: functions are values), recursion, first-order builtins, `def`/`set`/`begin`/`cond`;
-     values related modulo the numbering of closures — `compile_correct_on_F2a`;
+     values related modulo the numbering of closures — `compile_correct_on_F2`;
    * for the effect-free sub-fragment F0c with explicit fuel on both sides — `compile_correct_F0c`;
 2. the full `CompileCorrect` follows from its restriction to the remaining programs
    (`CompileCorrectOutsideProved`, the precise unproved remainder);
@@ -951,8 +998,8 @@ def CompileCorrectOutsideProved : Prop := CompileCorrectOn (fun p => ¬ InProved
 
 MISSING (held by the `eval` correspondence only): `CompileCorrectOutsideProved` — `break`/`continue`
 (the rest of F1; generator-side groundwork in Proofs/SimFbGen.lean), the rest of F2 (the Fc forms
-inside function bodies, `fn`, nested closures capturing locals, varargs), F3 (self tail calls,
-`map`/`apply`, lazy parameters). -/
+next to user functions, `fn`/`defn` inside operands, varargs), F3 (self tail calls, `map`/`apply`,
+lazy parameters). -/
 theorem compile_correct_partial :
     CompileCorrectOn InProvedFragment
     ∧ (CompileCorrectOutsideProved → CompileCorrect)
@@ -966,7 +1013,7 @@ theorem compile_correct_partial :
     rcases hp with hp | hp | hp
     · exact compile_correct_on_Fv p hp hwf
     · exact compile_correct_on_Fc p hp hwf
-    · exact compile_correct_on_F2a p hp hwf
+    · exact compile_correct_on_F2 p hp hwf
   refine ⟨hin, fun hout p hwf => ?_, gen_begin_pops_between,
     fun arms dflt i _ => asmCond_suffix arms dflt i, asmSC_suffix⟩
   by_cases h : InProvedFragment p
